@@ -49,6 +49,33 @@ def lin(row, x):
     return row[0] + sum(a * b for a, b in zip(row[1:], x))
 
 
+INF = float("inf")
+
+
+def nf(case, v):
+    """Objective value as the real objective returns it.  In `nonfinite` cases every true value divisible by 5 is
+    returned as +inf / -inf / nan (a failed calculation reported through the costs): the wrapper's accounting must not
+    depend on what the value is.  The model keeps the integer; both sides are compared through `canon`."""
+    if case.get("nonfinite") and abs(v) < PRED_BASE // 2 and int(v) == v and int(v) % 5 == 0:
+        return (INF, -INF, float("nan"))[(int(v) // 5) % 3]
+    return float(v)
+
+
+def canon(v):
+    return "nan" if v != v else float(v)
+
+
+def canon_result(case, res, from_model):
+    """Make the values of a result comparable: model / mirror integers go through `nf`, NaN becomes a token."""
+    if "raised" in res:
+        return res
+    out = dict(res)
+    for k in ("returned", "ys"):
+        out[k] = [[canon(nf(case, t) if from_model else t) for t in row] for row in res[k]]
+    return out
+
+
+
 def run_impl(case):
     """Returns dict(returned, eval, pred, fits, xs, ys, fcalls, trained) or {'raised': name}."""
     from artap.problem import Problem
@@ -66,7 +93,7 @@ def run_impl(case):
         def evaluate(self, individual):
             x = list(individual.vector)
             fcalls.append(x)
-            return [float(lin(r, x)) for r in case["obj"]]
+            return [nf(case, lin(r, x)) for r in case["obj"]]
 
     if case["has_hook"]:
         def predict(self, individual):
@@ -101,7 +128,7 @@ def run_impl(case):
             # a training set pre-seeded through the public add_data (as read_from_data_store does) before the first
             # request: retraining is still due at every train_step-th TRUE EVALUATION, whatever the set's size is
             for px, py in case["preload"]:
-                sur.add_data([float(t) for t in px], [float(t) for t in py])
+                sur.add_data([float(t) for t in px], [nf(case, t) for t in py])
         if case["default_regressor"]:        # count the wrapper's train() calls around the real regressor
             inner = sur.train
 
@@ -228,14 +255,16 @@ def imat(s):
     return [ivec(t) for t in s.split(";")] if s.strip() else []
 
 
-def parse_answer(ans):
+def parse_answer(ans, nreq=None):
     if ans == "raise":
         return {"raised": "ZeroDivisionError"}
     ret, st = ans.split("#")
     tr, ev, pr, tc, sizes, xs, ys, fc = st.split("|")
     sizes = [int(t) for t in sizes.split(",")] if sizes.strip() else []
     assert int(tc) == len(sizes)
-    return {"returned": imat(ret), "eval": int(ev), "pred": int(pr), "fits": [(k, k) for k in sizes], "xs": imat(xs),
+    # one returned row per request - also when the only row is an empty (falsy) prediction, which prints as ""
+    rows = [ivec(t) for t in ret.split(";")] if nreq else imat(ret)
+    return {"returned": rows, "eval": int(ev), "pred": int(pr), "fits": [(k, k) for k in sizes], "xs": imat(xs),
             "ys": imat(ys), "fcalls": imat(fc), "trained": tr == "1"}
 
 
@@ -261,11 +290,14 @@ def gen_case(rng, quick, default_regressor=False):
     case = {"wrapper": wrapper, "n": n, "obj": obj, "requests": requests, "train_step": ts,
             "trained0": rng.random() < 0.35, "has_hook": rng.random() < 0.8, "via_job": rng.random() < 0.4,
             "default_regressor": False}
+    if rng.random() < 0.2:
+        case["nonfinite"] = True     # some true objective values are +-inf / nan
     if wrapper != "eval" and rng.random() < 0.25:
         k = rng.randint(1, 7)
         case["preload"] = [([rng.randint(-50, 50) for _ in range(n)], [rng.randint(-99, 99) for _ in range(nobj)]) for _ in range(k)]
     if default_regressor:
         case.pop("preload", None)
+        case.pop("nonfinite", None)
         # the constructors' own regressors (GaussianProcessRegressor / KRG): few, distinct points, rare retraining
         case["wrapper"] = rng.choice(["scikit", "smt"])
         case["n"] = n = 1
@@ -327,7 +359,7 @@ def check_group(ctx, cases, impls):
                 return False
     answers = ctx.lean([lean_line(c, effective_step(c)) for c in cases])
     for c, i, ans in zip(cases, impls, answers):
-        model = parse_answer(ans)
+        model = parse_answer(ans, len(c["requests"]))
         step = effective_step(c)
         nontrivial = c["wrapper"] != "eval" and "raised" not in i and (
             (i["pred"] > 0 and i["eval"] > 0) or len(i["fits"]) > 0)
@@ -344,7 +376,7 @@ def check_group(ctx, cases, impls):
             ctx.count("predictions", i["pred"])
             ctx.count("true_evaluations", i["eval"])
             ctx.count("retrainings", len(i["fits"]))
-        bad = diff(i, model)
+        bad = diff(canon_result(c, i, False), canon_result(c, model, True))
         if bad:
             report(ctx, c, bad)
             return False
@@ -352,7 +384,7 @@ def check_group(ctx, cases, impls):
 
 
 def fails(case):
-    return diff(run_impl(case), spec_run(case, effective_step(case)))
+    return diff(canon_result(case, run_impl(case), False), canon_result(case, spec_run(case, effective_step(case)), True))
 
 
 def report(ctx, case, bad):
@@ -377,8 +409,8 @@ def replay(ctx, rp):
         print("nothing to replay:", rp.get("what"))
         return False
     c["requests"] = [(x, h) for x, h in c["requests"]]
-    impl = run_impl(c)
-    want = spec_run(c, effective_step(c))
+    impl = canon_result(c, run_impl(c), False)
+    want = canon_result(c, spec_run(c, effective_step(c)), True)
     bad = diff(impl, want)
     print("code    :", {k: v for k, v in impl.items() if k not in ("xs", "ys", "fcalls")})
     print("expected:", {k: v for k, v in want.items() if k not in ("xs", "ys", "fcalls")})
